@@ -1388,9 +1388,9 @@ class RealBackend(object):
             if f == "unset":
                 self.fired("item_unset")
                 continue
-            if f == "err":
-                self.fired("item_error")
-                e = SimError("ie:%s" % it.tok)
+            if f in ("err", "err_stop"):
+                self.fired("item_error" if f == "err" else "item_error_stopiteration")
+                e = (SimError if f == "err" else prog.SimStop)("ie:%s" % it.tok)
                 self.errors[e.tag] = e
                 rec["set"][it.tok] = ("E", e)
                 it.set_error(e)
